@@ -379,8 +379,14 @@ def r6_split_protocol(chk, repo):
             continue
         if isinstance(e, (ast.If, ast.While)):
             reads = [x for x in ast.walk(e.test) if isinstance(x, ast.Name) and x.id == T]
-            allowed = True  # branch tests that decide whether a search is needed at all
+            # branch tests that decide whether a search is needed at all: only `t` against a chunk edge
+            tt = e.test
+            allowed = isinstance(tt, ast.Compare) and len(tt.ops) == 1 and isinstance(tt.ops[0], (ast.Eq, ast.LtE, ast.GtE)) and {norm(tt.left), norm(tt.comparators[0])} in ({T, "self.end"}, {T, "self.start"})
             what = norm(e.test)
+            if reads and not allowed:
+                chk.fail(R, f, e, f"`{what[:90]}` decides without looking at the rows that everything lies on one side of the split: only the chunk edges allow that (rows are sorted by start, not by end - a long early row can still straddle t)",
+                         site={"function": f.qualname, "rule": "shortcut only at the chunk edges", "construct": what[:90]})
+                continue
         elif isinstance(e, (ast.For, ast.With, ast.Try, ast.FunctionDef)):
             continue
         else:
@@ -459,6 +465,8 @@ WITNESSES = [
       "latest_end_seen = max(latest_end_seen, strax.endtime(d))", "latest_end_seen = strax.endtime(d)"),
     W("run bookkeeping before the split time is final", "C07.R6", CHUNK,
       "t = max(min(t, self.end), self.start)  # type: ignore\n        if t == self.end:", "t = max(min(t, self.end), self.start)  # type: ignore\n        superrun_first_chunk, superrun_second_chunk = _split_runs_in_chunk(self.superrun, t)\n        if t == self.end:"),
+    W("split shortcut trusts the last row's end", "C07.R6", CHUNK,
+      "if t == self.end:\n            data1, data2 = self.data, self.data[:0].copy()", "if t == self.end or (len(self.data) and strax.endtime(self.data[-1]) <= t):\n            data1, data2 = self.data, self.data[:0].copy()"),
     W("halves swapped", "C07.R6", CHUNK,
       "end=max(self.start, t),  # type: ignore\n            data=data1,", "end=max(self.start, t),  # type: ignore\n            data=data2,"),
     W("right half starts at the requested end", "C07.R6", CHUNK,
